@@ -206,6 +206,7 @@ type c19Scenario struct {
 	launch     string // ok | fail (work dir missing) | chooser (no path configured, no dialog tool) | absent (helper not on PATH)
 	autoexit   int    // -1: the helper waits for commands; otherwise it exits at once with this code
 	greet      []byte // what the helper prints right after it started (nil: nothing)
+	remote     *c19Remote
 	evs        []c19Ev
 	horizon    int
 	ended      bool // the script contains an event after which the terminal must come back
@@ -213,6 +214,69 @@ type c19Scenario struct {
 	probeTyped [][]byte // the three typed texts of the probe
 	probeStart int      // nominal time of the first probe event
 	tags       []string
+}
+
+// c19Remote: the remote side is a zmodem program as lrzsz behaves.  Its first header is the
+// scripted server event at t0; it REPEATS that header every period ms (at most max times)
+// until it is sent the cancel sequence, or sees the local side's finish header or
+// over-and-out; after that a shell is there again and answers every write ending in CR
+// with the prompt.
+type c19Remote struct {
+	t0, period, max int
+	hdr, prompt     []byte
+}
+
+func (r *c19Remote) spec() string {
+	if r == nil {
+		return "-"
+	}
+	return fmt.Sprintf("%d:%d:%d:%s:%s", r.t0, r.period, r.max, hx(r.hdr), hx(r.prompt))
+}
+
+// the running remote program of one scenario
+type c19RemoteRun struct {
+	mu      sync.Mutex
+	spec    *c19Remote
+	waiting bool
+	repeats int
+	out     io.Writer
+}
+
+func (rr *c19RemoteRun) onWrite(b []byte) {
+	rr.mu.Lock()
+	defer rr.mu.Unlock()
+	switch {
+	case rr.waiting:
+		if bytes.Contains(b, c19CancelSub) || bytes.Equal(b, c19OO) || trzsz.VerifZmodemFinishMatch(b) {
+			rr.waiting = false
+		}
+	case len(b) > 0 && b[len(b)-1] == '\r':
+		go rr.out.Write(rr.spec.prompt)
+	}
+}
+
+func (rr *c19RemoteRun) repeat(start time.Time, horizon int, late *int) {
+	for k := 1; k <= rr.spec.max; k++ {
+		at := rr.spec.t0 + k*rr.spec.period
+		if at >= horizon {
+			return
+		}
+		if d := time.Until(start.Add(time.Duration(at) * time.Millisecond)); d > 0 {
+			time.Sleep(d)
+		}
+		rr.mu.Lock()
+		w := rr.waiting
+		if d := int(time.Since(start)/time.Millisecond) - at; d > *late {
+			*late = d
+		}
+		rr.mu.Unlock()
+		if w {
+			rr.out.Write(rr.spec.hdr)
+			rr.mu.Lock()
+			rr.repeats++
+			rr.mu.Unlock()
+		}
+	}
 }
 
 func (sc *c19Scenario) modelArgs(readerr string) []string {
@@ -240,7 +304,7 @@ func (sc *c19Scenario) modelArgs(readerr string) []string {
 	if len(parts) > 0 {
 		ev = strings.Join(parts, ";")
 	}
-	return []string{launch, ae, dl, hx(sc.greet), readerr, strconv.Itoa(sc.horizon), ev}
+	return []string{launch, ae, dl, hx(sc.greet), sc.remote.spec(), readerr, strconv.Itoa(sc.horizon), ev}
 }
 
 type c19Write struct {
@@ -249,6 +313,7 @@ type c19Write struct {
 }
 
 type c19Log struct {
+	on    func([]byte) // called for every write, after it has been recorded
 	mu    sync.Mutex
 	start time.Time
 	w     []c19Write
@@ -262,6 +327,9 @@ func (l *c19Log) pump(r io.Reader) {
 			l.mu.Lock()
 			l.w = append(l.w, c19Write{time.Since(l.start), append([]byte(nil), buf[:n]...)})
 			l.mu.Unlock()
+			if l.on != nil {
+				l.on(buf[:n])
+			}
 		}
 		if err != nil {
 			return
@@ -296,6 +364,10 @@ type c19Result struct {
 	startedOn  [][]byte // chunks right after whose forwarding the cursor was hidden
 	driftMs    int      // how late the harness itself was with its worst scripted event
 	launches   int      // how many helper processes were started (lines of born.log)
+	remoteWait bool     // the remote zmodem program is still waiting (repeating its header) at the end
+	sessions   int      // how often the cursor was hidden (sessions started)
+	prompt     bool     // the shell's prompt reached the terminal
+	enterSent  bool     // the clean-up CR was written to the server
 	aborted    bool     // the run was given up before an event that would have hit the pinned code's crash window
 }
 
@@ -398,15 +470,37 @@ func c19Run(sc *c19Scenario) (res c19Result) {
 
 	start := time.Now()
 	term, srv := &c19Log{start: start}, &c19Log{start: start}
+	var rr *c19RemoteRun
+	remoteLate := 0
+	if sc.remote != nil {
+		rr = &c19RemoteRun{spec: sc.remote, waiting: true, out: soutW}
+		srv.on = rr.onWrite
+		go rr.repeat(start, sc.horizon, &remoteLate)
+	}
 	go term.pump(coutR)
 	go srv.pump(sinR)
 
 	var last *trzsz.VerifZmodemSession
+	var lastMu sync.Mutex
 	poll := func() {
+		lastMu.Lock()
 		if cur := trzsz.VerifZmodemCurrent(filter); cur != nil {
 			last = cur
 		}
+		lastMu.Unlock()
 	}
+	pollDone := make(chan struct{})
+	defer close(pollDone)
+	go func() { // a session may start and be dropped again between two scripted events
+		for {
+			select {
+			case <-pollDone:
+				return
+			case <-time.After(3 * time.Millisecond):
+				poll()
+			}
+		}
+	}()
 	lastHdrAt := -1
 	for _, e := range sc.evs {
 		if d := time.Until(start.Add(time.Duration(e.t) * time.Millisecond)); d > 0 {
@@ -528,8 +622,18 @@ func c19Run(sc *c19Scenario) (res c19Result) {
 		}
 	}
 	flags := "none"
-	if last != nil {
-		f := last.Flags()
+	lastMu.Lock()
+	lastSeen := last
+	lastMu.Unlock()
+	if lastSeen == nil {
+		for _, it := range res.term {
+			if it == "h" { // a session came and went between two polls (the machine stalled): not a usable run
+				res.driftMs = 999
+			}
+		}
+	}
+	if lastSeen != nil {
+		f := lastSeen.Flags()
 		var b strings.Builder
 		for _, x := range f {
 			if x {
@@ -552,6 +656,34 @@ func c19Run(sc *c19Scenario) (res c19Result) {
 	}
 	res.readerr = j(readerr)
 	res.canon = "T=" + j(res.term) + "|S=" + j(res.srv) + "|H=" + hx(stdin) + "|F=" + flags + "|P=" + p + "|L=" + strconv.Itoa(res.launches)
+	if rr == nil {
+		res.canon += "|R=-"
+	} else {
+		rr.mu.Lock()
+		res.remoteWait = rr.waiting
+		if remoteLate > res.driftMs {
+			res.driftMs = remoteLate
+		}
+		rr.mu.Unlock()
+		if res.remoteWait {
+			res.canon += "|R=waiting"
+		} else {
+			res.canon += "|R=done"
+		}
+		for _, it := range res.term {
+			if it == "h" {
+				res.sessions++
+			}
+			if it == "f"+hx(sc.remote.prompt) {
+				res.prompt = true
+			}
+		}
+		for _, it := range res.srv {
+			if it == "d0d" {
+				res.enterSent = true
+			}
+		}
+	}
 	return
 }
 
@@ -802,6 +934,112 @@ func c19GraceScen(c *ctx, launch string) *c19Scenario {
 	return sc
 }
 
+var c19Prompt = []byte("\r\nPROMPT$ ")
+
+// c19RemoteScen: the remote side is a program that behaves like lrzsz' sz / rz (c19Remote):
+// it repeats its header every 1.1 s until it is sent the cancel sequence.  Helpers that exit
+// 0 / non-zero at once, later (mid-transfer), after a completed exchange, or only by the
+// kill after Ctrl-C; helpers that cannot be started; helpers that never exit.
+func c19RemoteScen(c *ctx, launch string) *c19Scenario {
+	sc := &c19Scenario{launch: launch, autoexit: -1}
+	tag := func(s string) { sc.tags = append(sc.tags, s) }
+	tag("launch:" + launch)
+	tag("remote-stratum")
+	const slot = 400
+	t := 0
+	if c.rng.Intn(3) == 0 {
+		sc.evs = append(sc.evs, c19Ev{t: t, kind: 'i', data: []byte("sz big.bin\r")})
+		t += slot
+	}
+	up := c.rng.Intn(2) == 0
+	hdr := c19HeaderChunk(c, up, 0)
+	sc.remote = &c19Remote{t0: t, period: 1100, max: 3, hdr: hdr, prompt: c19Prompt}
+	sc.evs = append(sc.evs, c19Ev{t: t, kind: 's', data: hdr})
+	if launch == "ok" {
+		switch c.rng.Intn(5) {
+		case 0:
+			sc.autoexit = 0
+			tag("remote:helper-exits-at-once-0")
+		case 1:
+			sc.autoexit = []int{1, 3}[c.rng.Intn(2)]
+			tag("remote:helper-exits-at-once-nonzero")
+		default:
+			if c.rng.Intn(2) == 0 {
+				sc.greet = c19Greets[c.rng.Intn(len(c19Greets))]
+			}
+		}
+	}
+	switch plan := c.rng.Intn(6); {
+	case sc.autoexit >= 0 || launch != "ok":
+		// nothing more: the exit / the failure is the whole story
+	case plan == 0: // a completed exchange, then the helper exits 0
+		t += slot
+		sc.evs = append(sc.evs, c19Ev{t: t, kind: 'o', data: c19Uniq("zdata")})
+		t += slot
+		sc.evs = append(sc.evs, c19Ev{t: t, kind: 's', data: c19Finish(c)})
+		t += slot
+		sc.evs = append(sc.evs, c19Ev{t: t, kind: 'o', data: c19Finish(c)})
+		t += slot
+		sc.evs = append(sc.evs, c19Ev{t: t, kind: 'x', code: 0})
+		tag("remote:completed-then-exit-0")
+	case plan == 1: // Ctrl-C, a helper that ignores everything: only the kill ends it
+		t += slot * (1 + c.rng.Intn(4))
+		sc.evs = append(sc.evs, c19Ev{t: t, kind: 'i', data: []byte{3}})
+		tag("remote:ctrl-c-then-kill")
+	case plan == 2: // never ends by itself: the probe's Ctrl-C will end it
+		tag("remote:helper-never-exits")
+	default: // mid-transfer exit, any status, after some traffic
+		n := c.rng.Intn(4)
+		for i := 0; i < n; i++ {
+			t += slot
+			if c.rng.Intn(2) == 0 {
+				sc.evs = append(sc.evs, c19Ev{t: t, kind: 'o', data: c19Uniq("zd")})
+			} else {
+				sc.evs = append(sc.evs, c19Ev{t: t, kind: 'i', data: c19Uniq("k")})
+			}
+		}
+		t += slot
+		code := []int{0, 0, 0, 1, 3}[c.rng.Intn(5)]
+		sc.evs = append(sc.evs, c19Ev{t: t, kind: 'x', code: code})
+		tag(fmt.Sprintf("remote:mid-transfer-exit-%d", code))
+	}
+	// then the user works in the shell again
+	for i, n := 0, c.rng.Intn(3); i < n; i++ {
+		t += slot
+		sc.evs = append(sc.evs, c19Ev{t: t, kind: 'i', data: append(c19Uniq("cmd"), '\r')})
+	}
+	sc.ended = c19Ended(sc)
+	c19AddProbe(sc, t, slot)
+	return sc
+}
+
+// c19RemoteOracle, judged on the real filter and the scripted remote program only: one remote
+// program is one session and at most one helper; when the session has ended the remote
+// program must have been sent the cancel sequence (or have finished), and the shell's prompt
+// must come back.
+func c19RemoteOracle(c *ctx, sc *c19Scenario, r *c19Result, scen, detail string) {
+	if sc.remote == nil {
+		return
+	}
+	c.count("oracle:remote-program")
+	if r.launches > 1 {
+		c.violate("helper-relaunched:"+scen,
+			fmt.Sprintf("one remote zmodem program made the filter start the local helper %d times", r.launches), detail)
+	}
+	if r.sessions > 1 {
+		c.violate("session-restarted:"+scen,
+			fmt.Sprintf("one remote zmodem program took the terminal away %d times: the session keeps coming back", r.sessions), detail)
+	}
+	if sc.ended && r.remoteWait {
+		c.violate("remote-left-waiting:"+scen,
+			"the session has ended (helper gone, could not be started, or Ctrl-C) but the remote zmodem program, which was still waiting, was never sent the cancel sequence", detail)
+	}
+	if sc.ended && r.enterSent && !r.prompt {
+		c.violate("prompt-never-came-back:"+scen,
+			"the session has ended and the clean-up CR was sent, but no shell prompt came back to the terminal", detail)
+	}
+}
+
 // c19Ended: does the script leave no session running?  (Implementation-side reasoning
 // only, deliberately conservative: when in doubt the session counts as still running and
 // the probe oracles do not apply.)
@@ -942,22 +1180,32 @@ func c19RunAll(scs []*c19Scenario, par int) []c19Result {
 }
 
 // c19ParseReplay rebuilds a scenario from the model arguments of a case line
-// (launch, autoexit, dlpath, greet, horizon, events), e.g. from a MISMATCH line or a replay file:
+// (launch, autoexit, dlpath, greet, remote, horizon, events), e.g. from a MISMATCH line or a replay file:
 //
-//	C19_REPLAY='ok|-|1|-|3900|0:s:2a2a...;400:i:03' corr zmodem 1 quick /dev/null /dev/null
+//	C19_REPLAY='ok|-|1|-|-|3900|0:s:2a2a...;400:i:03' corr zmodem 1 quick /dev/null /dev/null
 func c19ParseReplay(spec string) *c19Scenario {
 	w := strings.Split(spec, "|")
-	if len(w) == 7 { // with the observed read-error list: ignored, it is observed again
-		w = append(w[:4], w[5:]...)
+	if len(w) == 8 { // with the observed read-error list: ignored, it is observed again
+		w = append(w[:5], w[6:]...)
 	}
-	if len(w) != 6 {
-		panic("C19_REPLAY: want launch|autoexit|dlpath|greet[|readerr]|horizon|events")
+	if len(w) != 7 {
+		panic("C19_REPLAY: want launch|autoexit|dlpath|greet|remote[|readerr]|horizon|events")
 	}
 	sc := &c19Scenario{launch: w[0], autoexit: -1}
 	if w[3] != "-" {
 		sc.greet, _ = hex.DecodeString(w[3])
 	}
-	w = append(w[:3], w[4:]...)
+	if w[4] != "-" {
+		f := strings.Split(w[4], ":")
+		r := &c19Remote{}
+		r.t0, _ = strconv.Atoi(f[0])
+		r.period, _ = strconv.Atoi(f[1])
+		r.max, _ = strconv.Atoi(f[2])
+		r.hdr, _ = hex.DecodeString(f[3])
+		r.prompt, _ = hex.DecodeString(f[4])
+		sc.remote = r
+	}
+	w = append(w[:3], w[5:]...)
 	if w[1] != "-" {
 		sc.autoexit, _ = strconv.Atoi(w[1])
 	}
@@ -1057,6 +1305,18 @@ func genZmodemGroup(c *ctx) {
 			absent = append(absent, c19GraceScen(c, "absent"))
 		}
 	}
+	for i, n := 0, c.pick(50, 400); i < n; i++ {
+		switch r := c.rng.Intn(10); {
+		case r < 7:
+			present = append(present, c19RemoteScen(c, "ok"))
+		case r < 8:
+			present = append(present, c19RemoteScen(c, "fail"))
+		case r < 9:
+			present = append(present, c19RemoteScen(c, "chooser"))
+		default:
+			absent = append(absent, c19RemoteScen(c, "absent"))
+		}
+	}
 	nRandom := c.pick(150, 1500)
 	for i := 0; i < nRandom; i++ {
 		switch r := c.rng.Intn(20); {
@@ -1119,9 +1379,9 @@ func genZmodemGroup(c *ctx) {
 }
 
 func c19Oracles(c *ctx, sc *c19Scenario, r *c19Result, args []string) {
-	detail := fmt.Sprintf("scenario launch=%s autoexit=%d events=%s horizon=%d; observed %s; replay: C19_REPLAY='%s|%s|1|%s|%d|%s'",
+	detail := fmt.Sprintf("scenario launch=%s autoexit=%d events=%s horizon=%d; observed %s; replay: C19_REPLAY='%s|%s|1|%s|%s|%d|%s'",
 		sc.launch, sc.autoexit, args[len(args)-1], sc.horizon, r.canon,
-		sc.launch, args[2], hx(sc.greet), sc.horizon, args[len(args)-1])
+		sc.launch, args[2], hx(sc.greet), sc.remote.spec(), sc.horizon, args[len(args)-1])
 	// the scenario without its probe tail identifies the failing input
 	var pre []string
 	for _, e := range sc.evs {
@@ -1170,6 +1430,7 @@ func c19Oracles(c *ctx, sc *c19Scenario, r *c19Result, args []string) {
 		}
 	}
 	c19GraceOracle(c, sc, r, scen, detail)
+	c19RemoteOracle(c, sc, r, scen, detail)
 	for _, ch := range r.startedOn {
 		if bytes.Contains(ch, c19CancelSub) || bytes.Contains(ch, c19CannotOpen) {
 			c.violate("zmodem-start-on-veto:"+hx(ch), "a session was started on a chunk carrying a cancel sequence or 'cannot open '", detail)
